@@ -73,6 +73,12 @@ Definition w_midletterq (c : wbc) : bool := wbc_beq c WB_MidLetter || wbc_beq c 
 Definition w_midnumq (c : wbc) : bool := wbc_beq c WB_MidNum || wbc_beq c WB_MidNumLet || wbc_beq c WB_Single_Quote.
 Definition w_is (k c : wbc) : bool := wbc_beq c k.
 
+(* table facts the word rules rely on (checked on every rune of every driver case): CR and LF belong to
+   NewlineCRLF, U+200D to ExtendFormat *)
+Definition obs_wf_w (o : obs) : bool :=
+  (negb (o_cr o) || wb_is WB_NewlineCRLF o) && (negb (o_lf o) || wb_is WB_NewlineCRLF o)
+  && (negb (o_zwj o) || wb_is WB_ExtendFormat o).
+
 (* the finite context the word rules read at one position *)
 Record wctx := mkW {
   y_a_cr : bool;        (* the rune before is CR *)
